@@ -108,7 +108,7 @@ class C13(Check):
         "(A/B stream) every 1-2 row scaffold over the C03 row scope x width x every buffer in the set: identical bytes, every BytesIO, "
         "chunk and read <= buffer; (C) sequence/fragment(+/-)/gap 400 buffers long, buffers 4096 and 65536: tracemalloc peak <= 8*buffer+256KiB after an untraced warm-up. "
         "non-trivial = case in which the buffer is smaller than the sequence/fragment/gap (so a flush or chunk split happens)"
-        " Second record wider and longer than the first; a non-N ambiguity code in the index scope; a second stream with gap character 'n' from the same index object; two-width long run; tracemalloc after an untraced warm-up, bound 8*buffer+256KiB. Object path: a 3-record file (one record all N) indexed through FastaIndex(path, buffer).auto_load() for 10 buffers x widths {7,60} x LF/CRLF under the same BytesIO monitor, then re-loaded from the cache files. Long runs also through FastaIndex.auto_load (object path, cache files written) and on CRLF files; long streams are compared byte for byte (sha1) with the construction."
+        " Second record wider and longer than the first; a non-N ambiguity code in the index scope; a second stream with gap character 'n' from the same index object; two-width long run; tracemalloc after an untraced warm-up, bound 8*buffer+256KiB. Many chunks: 2500-residue forward / reverse fragment and gap at buffers 1, 2, 3 (thousands of chunks) against the construction. Object path: a 3-record file (one record all N) indexed through FastaIndex(path, buffer).auto_load() for 10 buffers x widths {7,60} x LF/CRLF under the same BytesIO monitor, then re-loaded from the cache files. Long runs also through FastaIndex.auto_load (object path, cache files written) and on CRLF files; long streams are compared byte for byte (sha1) with the construction."
     )
     assumptions = [
         "BytesIO objects created by tola.fasta.index / tola.fasta.simple are the only per-residue storage (confirmed by the tracemalloc runs)",
@@ -136,6 +136,8 @@ class C13(Check):
         for w in (7, 60):
             for eol in ("LF", "CRLF"):
                 out.append(("object", w, eol))
+        for eol in ("LF", "CRLF"):
+            out.append(("chunks", eol))
         return out
 
     # ------------------------------------------------------------------
@@ -413,8 +415,43 @@ class C13(Check):
             shutil.rmtree(d, ignore_errors=True)
         ctx.sample({"object": "FastaIndex(path, buffer).auto_load()", "width": w, "eol": eol})
 
+    def check_many_chunks(self, eol, ctx, only=None):
+        """a fragment / gap thousands of buffers long (buffers 1, 2, 3 on 2500 residues): same bytes as with one big buffer"""
+        unit = b"ACGTTGCAAGGCTTAACCGGATATCGCGAATTCCGGAAGCTTGGATCCAAGCTTACGTAc"
+        seq = (unit * 42)[:2500]
+        data, _ = fm.make_fasta([("big", seq, 60), ("r2", b"ACGT", 4)], b"\r\n" if eol == "CRLF" else b"\n", True)
+        idx, _ = index_fasta_file(fm.MemPath(data), 100)
+        rows_list = [
+            [("F", "big", 1, 2500, 1)],
+            [("F", "big", 1, 2500, -1)],
+            [("F", "big", 7, 2466, -1), ("G", 2500, "scaffold"), ("F", "r2", 1, 4, 1)],
+        ]
+        for rows in rows_list:
+            want = fm.expected_stream({"big": seq, "r2": b"ACGT"}, [("s", rows)], 60)
+            for buf in (1, 2, 3, 250000):
+                case = ["chunks", eol, buf, [list(r) for r in rows]]
+                if only is not None and case != only:
+                    continue
+                ctx.cur = case
+                ctx.evaluations += 1
+                ctx.nontrivial += 1
+                fi = FastaIndex(fm.MemPath(data), buf)
+                fi.index = idx
+                out = io.BytesIO()
+                try:
+                    FastaStream(out, fi).write_scaffold(fm.build_scaffold("s", rows))
+                except (Exception, RecursionError) as e:  # noqa: BLE001
+                    ctx.violation(f"stream-raises:{type(e).__name__}/many-chunks", case, repr(e)[:300])
+                    continue
+                if out.getvalue() != want:
+                    ctx.violation("stream-depends-on-buffer/many-chunks", case, f"{len(out.getvalue())} bytes, expected {len(want)}")
+                ctx.outcome((eol, tuple(map(tuple, rows))))
+        ctx.sample({"many_chunks": "2500-residue fragment / gap at buffers 1, 2, 3", "eol": eol})
+
     def run_shard(self, shard, ctx):
         kind = shard[0]
+        if kind == "chunks":
+            return self.check_many_chunks(shard[1], ctx)
         if kind == "object":
             return self.check_object(shard[1], shard[2], ctx)
         if kind == "index":
@@ -458,6 +495,8 @@ class C13(Check):
             self.check_long(case[1], case[2], ctx)
         elif kind == "object":
             self.check_object(case[1], case[2], ctx, only_buf=case[3])
+        elif kind == "chunks":
+            self.check_many_chunks(case[1], ctx, only=case)
 
 
 CHECK = C13()
